@@ -493,7 +493,21 @@ Definition C07_case (rs : list crule) (ins : list bytes) (ys bs : list (list obs
 
 (* libyara compiled the file, boreal did not (rejected, or panicked): a violation unless the file is
    in a class that documents it *)
+(* ---- recorded finding 18: boreal panics while scanning (`invalid span a..b for haystack`, a > b, raised by
+   the regex engine on the span boreal hands it) with a regex string that contains a word-boundary
+   assertion: `/_\b_c11_A xa|\D/` on `__c11_A xa`.  Class: boreal panicked and some regex string of the
+   file has `\b` or `\B`. *)
+Definition has_word_boundary (s : sdecl) : bool :=
+  match s with
+  | SRegex n _ _ _ =>
+      hsub (fun x => match x with HAssert WordBoundary | HAssert NonWordBoundary => true | _ => false end)
+           (node_to_hir n)
+  | _ => false
+  end.
+Definition K_SPAN_PANIC : N := 18.
+
 Definition C07_rejected (rs : list crule) (panicked : bool) : bool * bool * N :=
   let kc := cond_class rs in
   if panicked && (kc =? K_GLOBAL_REFS) then (true, false, K_GLOBAL_REFS)
+  else if panicked && existsb (fun r => existsb has_word_boundary (c_strings r)) rs then (true, false, K_SPAN_PANIC)
   else (true, false, 0).
